@@ -15,6 +15,7 @@ import (
 	cmttypes "github.com/cometbft/cometbft/types"
 
 	beacon "github.com/oasisprotocol/oasis-core/go/beacon/api"
+	"github.com/oasisprotocol/oasis-core/go/common"
 	"github.com/oasisprotocol/oasis-core/go/common/cbor"
 	"github.com/oasisprotocol/oasis-core/go/common/crypto/signature"
 	"github.com/oasisprotocol/oasis-core/go/common/quantity"
@@ -633,6 +634,17 @@ type blockPlan struct {
 	votesTag string
 	mis      []types.Misbehavior
 	txs      []genTx
+
+	inRounds  []inRound          // stream roothash
+	inSubmits []common.Namespace // target runtime of every "rt:submit in-message" tx, in order
+}
+
+// inRound: a one-worker runtime's round whose scheduler commitment is in this block.
+type inRound struct {
+	id    common.Namespace
+	round uint64
+	plan  inPlan
+	idx   int // index of the commitment transaction in the block
 }
 
 type genTx struct {
@@ -909,6 +921,9 @@ func (w *world) step(bp *blockPlan) bool {
 			w.count("block/epoch transition")
 		}
 		w.observe(in, bp, res, w.prev, cur)
+		if w.rt != nil {
+			w.observeInMsgs(h, bp, res)
+		}
 	}
 	w.prev = cur
 	// nonces
